@@ -9,7 +9,8 @@ META = {
     "C01": dict(
         text="static: every evaluation path of the INTERNAL policy that ends OK satisfies the internal-consistency certificate "
              "(all INT-xx rules, calendar / publication / authentication alternatives); verdict table of each internal rule "
-             "function equals the documented one; guard tables tie each OK/FAIL verdict to the comparison it documents",
+             "function equals the documented one; guard tables tie each OK/FAIL verdict to the comparison it documents (one slice per "
+             "absent component); chain shape value table around the 64-bit boundary",
         note="decides policy shape, verdict tables and comparison guards from the source; does NOT decide that recomputed hash "
              "values equal an independent evaluation, nor the accepting direction; engine semantics taken from C05",
         tech="static analysis: rule-table enumeration under the engine semantics + explicit-state CFG exploration of verdict stores + must-pass guards",
@@ -61,7 +62,7 @@ META = {
     "C09": dict(
         text="static: serializers evaluated over abstract output buffers for the boundary classes of length / tag / flags / buffer "
              "size (no write outside the buffer, short buffer refused, exact header bytes, >0xffff refused); detach re-mapping; "
-             "reader dereferences behind length checks; exact-tiling error exits",
+             "a refused mutation leaves the length fields unchanged; reader dereferences behind length checks; exact-tiling error exits",
         note="decides the boundary classes named in the evidence; payload bytes are opaque, round-trip of arbitrary trees is not decided",
         tech="static analysis: finite abstract evaluation of the CFG over abstract byte buffers + dominating range checks + error-on-condition",
         ref="DESIGN.md §4 C09"),
@@ -73,25 +74,29 @@ META = {
         ref="DESIGN.md §4 C10"),
     "C11": dict(
         text="static: serialization source is the retained TLV; no TLV-mutating function is reachable from verification; "
-             "memoised chain outputs are keyed by the start level; no control dependence on the log level",
+             "memoised chain outputs are keyed by the start level; no control dependence on the log level; hand-written clone "
+             "functions give every field of the struct to the clone",
         note="decides structural clauses; equality of verdicts along operation histories is not decided",
         tech="static analysis: call-graph reachability (who-may-write) + decision table + purity-of-control",
         ref="DESIGN.md §4 C11"),
     "C12": dict(
-        text="static: reader dereferences behind length checks, sentinel-terminated lookup tables, ownership on parser error "
-             "paths, bounded formatting into fixed buffers",
+        text="static: reader dereferences behind length checks, sentinel-terminated lookup tables whose every index is bounded on both "
+             "sides, ownership on parser error paths, bounded formatting into fixed buffers, rendering into caller buffers",
         note="a pass means these rule families hold everywhere, not that the parsers are memory-safe for all byte strings",
         tech="static analysis: bounded-access + table invariants + ownership typestate over goto-cleanup exits",
         ref="DESIGN.md §4 C12"),
     "C13": dict(
         text="static: response delivery is guarded by slot bound, slot occupancy, full-id equality, waiting state, request match "
-             "and status; accounting pairs; finalisation table; cache-full predicate",
+             "and status; accounting pairs; finalisation table; cache-full predicate; accounting tables of addRequest and of a received "
+             "configuration over what the configuration slot holds (accepted = pending + 1, refused = nothing changed, no unreturned "
+             "request leaves the slot)",
         note="decides delivery guards and accounting pairs; exactly-once over all schedules is not decided",
         tech="static analysis: must-pass guards + paired-effect (control equivalence) + decision tables",
         ref="DESIGN.md §4 C13"),
     "C14": dict(
         text="static: recv/memmove bounded by the buffer, received bytes reach the extraction loop before the next read/close, blocking "
-             "reader table over chunk sequences, stream offsets reset with the socket, would-block edges fail nothing, faults end requests",
+             "reader table over chunk sequences, blocking send-loop table over partial sends, a partly written request never dropped on an "
+             "open connection, stream offsets reset with the socket, would-block edges fail nothing, faults end requests",
         note="decides buffer/offset clauses; independence from chunking as an input-output statement is not decided",
         tech="static analysis: bounded-access + paired effects + stale-status rule",
         ref="DESIGN.md §4 C14"),
@@ -103,25 +108,30 @@ META = {
         tech="static analysis: finite abstract evaluation over order regions of the compared constants",
         ref="DESIGN.md §4 C15"),
     "C16": dict(
-        text="static: level refusal guards, height prediction fold table, insertNode table (forest unchanged on failure), ownership on "
-             "error paths of the tree builder, constructor/reset agreement of the block signer including leaf-processor order",
+        text="static: level refusal guards (closing level predicted with and without a configured maximum), height prediction fold table, "
+             "insertNode and close tables (forest unchanged / nothing lost on failure), level removed when a leaf's chain is put in front, "
+             "ownership on error paths of the tree builder, constructor/reset agreement of the block signer including leaf-processor order",
         note="decides refusal and agreement clauses; validity of every extracted proof is not decided",
         tech="static analysis: error-on-condition + sibling agreement (constructor vs reset) + call-sequence",
         ref="DESIGN.md §4 C16"),
     "C17": dict(
         text="static: decode gating of publication strings (length, CRC, algorithm, exact length); base-32 alphabet and decode "
-             "tables evaluated with their element type; CRC table equals the polynomial's table",
+             "tables evaluated with their element type; CRC table equals the polynomial's table; octets handed to the encoder = big-endian "
+             "64-bit time || imprint || big-endian CRC (value table up to 2^64-1)",
         note="decides gating and table clauses; error-detection strength as a coding-theory fact is not decided",
         tech="static analysis: must-pass guards + constant-table comparison",
         ref="DESIGN.md §4 C17"),
     "C18": dict(
-        text="static: fixed-order template, magic check first, signed range flow, PKI verification guards, lookup decision tables",
+        text="static: fixed-order template, magic check first, signed range flow, PKI verification guards, the PKI signature value is "
+             "exactly one DER object, lookup decision tables",
         note="decides structure, range flow and trust guards; PKCS#7 mathematics is trusted",
         tech="static analysis: table comparison + def-use flow + must-pass guards + decision tables",
         ref="DESIGN.md §4 C18"),
     "C19": dict(
         text="static: allocation results are checked before use; every error exit after an acquisition releases what the "
-             "function owns exactly once; failures are reported (no dropped status)",
+             "function owns exactly once; failures are reported (no dropped status); released fields are reassigned (a callee that "
+             "stores only on success reassigns on the success edge only); constructors initialise what their destructor reads; a "
+             "reference taken is never discarded",
         note="decides ownership / NULL-check / status rules on every exit of every function; third-party libraries are trusted",
         tech="static analysis: ownership typestate over the goto-cleanup CFG + status hygiene",
         ref="DESIGN.md §4 C19"),
